@@ -210,6 +210,12 @@ def fun(x):
     if isinstance(xx, BadRepr): xx = xx.n
     if isinstance(xx, str): xx = int(xx[-2:])          # long-argument stratum: the argument number is in the last two characters
     _CUR['log'].append(xx)
+    rec = _CUR.get('recurse')
+    if rec is not None:
+        # recursive stratum: the body makes nested calls THROUGH the wrapper (x-1 and x-2) before it returns its own value
+        rec['stack'][-1]['ran'] = True
+        if isinstance(xx, int) and xx >= 2:
+            rec['call'](xx - 1); rec['call'](xx - 2)
     if xx in _CUR['keyerr']: raise KeyError(xx)
     if xx in _CUR['raising']: raise Boom(xx) from ROOT_CAUSE        # (explicitly chained: what arrives must still say so)
     return value_of(xx)
@@ -535,6 +541,54 @@ class Runner:
                 del c.archive[k]
             return dict(op='extdel', k=self.K(k)), 'unit', None
         raise ValueError(op)
+
+
+def run_recursive_trace(cfg, tops):
+    """a recursive memoized function: every call - top-level or nested - is recorded WHEN IT COMPLETES, with the state right after it.
+    By `Klepto.Reentrant.reentrant_eq_flat` that sequence is an ordinary history of atomic calls, so the result has the format of
+    `run_trace` and goes through the same model comparison and monitors."""
+    tmp = scratch_dir('kwr')
+    cwd = os.getcwd()
+    orig_choice = random.choice
+    try:
+        os.chdir(tmp)
+        random.seed(sub_seed('rr', json.dumps(cfg, sort_keys=True)))
+        R = Runner(cfg, tmp)
+        lines = [R.cfg_line()]
+        recs, ops = [], []
+        state = dict(before=R.observe())
+        stack = []
+        def patched(seq):
+            v = orig_choice(seq); stack[-1]['chosen'].append(v); return v
+        def rcall(x):
+            frame = dict(ran=False, chosen=[]); stack.append(frame)
+            args = (R.A(x),)
+            key, rawk = R.keyin(args)
+            try:
+                out = {'ret': R.V(R.f(*args))}
+            except Exception as e:
+                out = {'exc': exc_name(e)}
+            stack.pop()
+            out['evals'] = 1 if frame['ran'] else 0
+            line = dict(op='call', key=key, fn=R.fnout(x), victim=R.K(frame['chosen'][0]) if frame['chosen'] else None)
+            after = R.observe()
+            recs.append(dict(i=len(recs), op=['call', x], line=line, out=out, before=state['before'], after=after))
+            ops.append(['call', x]); lines.append(line); state['before'] = after
+        random.choice = patched
+        _CUR['recurse'] = dict(call=rcall, stack=stack)
+        try:
+            for x in tops: rcall(x)
+        finally:
+            _CUR['recurse'] = None; random.choice = orig_choice
+        return dict(cfg=cfg, ops=ops, lines=lines, recs=recs, err=None, recursive=True,
+                    keys=[repr(k)[:60] for k in R.K.vals], vals=[repr(v)[:40] for v in R.V.vals])
+    except Exception:
+        import traceback
+        _CUR['recurse'] = None; random.choice = orig_choice
+        return dict(cfg=cfg, ops=[], lines=[], recs=[], err=traceback.format_exc()[-1500:])
+    finally:
+        os.chdir(cwd)
+        rm_rf(tmp)
 
 
 def run_trace(cfg, ops):
